@@ -1,7 +1,7 @@
 (* Extract_tensors.v -- extraction of the tensors group to OCaml (ExtrOcamlBasic only). *)
 From Coq Require Import Extraction ExtrOcamlBasic.
 From PV Require Import Num Model_voigt Model_decomp Model_decomp_series Entry_tensors.
-From PV.gen Require Import Gen_tensors.
+From PV.gen Require Import Gen_tensors Gen_polar.
 Extraction Language OCaml.
 Extraction "model_tensors.ml" run_invariants run_decompose run_mono run_ortho run_tetr run_hex
   run_upper3 run_upper6 run_vte run_etv run_m2v run_v2m run_rotate run_polar_left run_polar_right run_voigt run_decomp run_decomp_series.
